@@ -106,7 +106,20 @@ impl<'a> Iterator for SymExprIter<'a> {
 
 impl SymExpr {
     /// Return the range of possible values this element may have.
+    ///
+    /// The bounds are inclusive. They are computed with interval arithmetic on
+    /// the ranges of the operands, saturating at the limits of `i32`.
     pub fn range(&self) -> (i32, i32) {
+        // Clamp bounds computed in 64-bit arithmetic to the `i32` range.
+        fn clamp(min: i64, max: i64) -> (i32, i32) {
+            let to_i32 = |x: i64| x.clamp(i32::MIN as i64, i32::MAX as i64) as i32;
+            (to_i32(min), to_i32(max))
+        }
+        let range64 = |expr: &SymExpr| {
+            let (min, max) = expr.range();
+            (min as i64, max as i64)
+        };
+
         match self {
             Self::Value(x) => (*x, *x),
             Self::Var(sym) => {
@@ -117,26 +130,53 @@ impl SymExpr {
                 }
             }
             Self::Neg(x) => {
-                if x.is_positive() {
-                    (i32::MIN, -1)
-                } else {
-                    (i32::MIN, i32::MAX)
-                }
+                let (min, max) = range64(x);
+                clamp(-max, -min)
             }
-            Self::Add(lhs, rhs)
-            | Self::Mul(lhs, rhs)
-            | Self::Max(lhs, rhs)
-            | Self::Min(lhs, rhs)
-            | Self::Div(lhs, rhs)
-            | Self::DivCeil(lhs, rhs) => {
-                let (lhs_min, lhs_max) = lhs.range();
-                let (rhs_min, rhs_max) = rhs.range();
-                (lhs_min.min(rhs_min), lhs_max.max(rhs_max))
+            Self::Add(lhs, rhs) => {
+                let ((lhs_min, lhs_max), (rhs_min, rhs_max)) = (range64(lhs), range64(rhs));
+                clamp(lhs_min + rhs_min, lhs_max + rhs_max)
             }
-            Self::Sub(_lhs, _rhs) => {
+            Self::Sub(lhs, rhs) => {
                 // Note: Unlike for addition, subtraction involving two
                 // positive symbols may produce a negative result.
-                (i32::MIN, i32::MAX)
+                let ((lhs_min, lhs_max), (rhs_min, rhs_max)) = (range64(lhs), range64(rhs));
+                clamp(lhs_min - rhs_max, lhs_max - rhs_min)
+            }
+            Self::Mul(lhs, rhs) => {
+                let ((lhs_min, lhs_max), (rhs_min, rhs_max)) = (range64(lhs), range64(rhs));
+                let products = [
+                    lhs_min * rhs_min,
+                    lhs_min * rhs_max,
+                    lhs_max * rhs_min,
+                    lhs_max * rhs_max,
+                ];
+                clamp(
+                    products.into_iter().min().unwrap(),
+                    products.into_iter().max().unwrap(),
+                )
+            }
+            Self::Div(lhs, rhs) | Self::DivCeil(lhs, rhs) => {
+                // The divisor is a non-zero integer, so the quotient is no
+                // larger in magnitude than the dividend. If the sign of the
+                // divisor is known, so is the sign of the quotient.
+                let ((lhs_min, lhs_max), (rhs_min, rhs_max)) = (range64(lhs), range64(rhs));
+                if rhs_min >= 0 {
+                    clamp(lhs_min.min(0), lhs_max.max(0))
+                } else if rhs_max <= 0 {
+                    clamp((-lhs_max).min(0), (-lhs_min).max(0))
+                } else {
+                    let max_abs = lhs_min.abs().max(lhs_max.abs());
+                    clamp(-max_abs, max_abs)
+                }
+            }
+            Self::Max(lhs, rhs) => {
+                let ((lhs_min, lhs_max), (rhs_min, rhs_max)) = (lhs.range(), rhs.range());
+                (lhs_min.max(rhs_min), lhs_max.max(rhs_max))
+            }
+            Self::Min(lhs, rhs) => {
+                let ((lhs_min, lhs_max), (rhs_min, rhs_max)) = (lhs.range(), rhs.range());
+                (lhs_min.min(rhs_min), lhs_max.min(rhs_max))
             }
             Self::Broadcast(lhs, rhs) => {
                 let (lhs_min, lhs_max) = lhs.range();
